@@ -193,6 +193,33 @@ for how in ("SDRecord()", "SDRecord(header=...)", "SDRecord(metadata=None)"):
                 lambda how=how, n=n: per_record_metadata(how, n))
 
 
+def fresh_sd_objects():
+    """SD files, records and metadata created without arguments share nothing with each other"""
+    a, b = mol.SDFile(), mol.SDFile()
+    rec = mol.SDRecord()
+    rec.set_structure(molecule(["C"], [0], []))
+    a["m"] = rec
+    if len(b) != 0 or len(mol.SDFile()) != 0:
+        return "SDFile(): records of one instance show up in another"
+    m1, m2 = mol.Metadata(), mol.Metadata()
+    m1["K"] = "v"
+    if len(m2) != 0 or len(mol.Metadata()) != 0:
+        return "Metadata(): keys of one instance show up in another"
+    r1, r2 = mol.SDRecord(), mol.SDRecord()
+    r1.metadata["K"] = "v"
+    r1.header = mol.Header(mol_name="one")
+    if len(r2.metadata) != 0 or r2.header.mol_name == "one" or len(mol.SDRecord().metadata) != 0:
+        return "SDRecord(): metadata / header of one instance show up in another"
+    f1, f2 = mol.MOLFile(), mol.MOLFile()
+    f1.header = mol.Header(mol_name="one")
+    if f2.header.mol_name == "one" or mol.MOLFile().header.mol_name == "one":
+        return "MOLFile(): the header of one instance shows up in another"
+    return None
+
+
+R.check("SDF records: models become conformers and return; header/metadata/record order survive", "fresh objects are independent", {}, fresh_sd_objects)
+
+
 def rename_contract(edit):
     """records read from a file, then renamed / edited, are written with the new names and headers"""
     f = mol.SDFile()
@@ -247,8 +274,11 @@ def key_contract(kw):
     K = mol.Metadata.Key
     try:
         k = K(**kw)
-    except ValueError:
-        return None
+    except ValueError as e:
+        # a key needs a number or a name: only that is refused
+        if kw.get("number") is None and kw.get("name") is None:
+            return None
+        return f"a key of the grammar was refused: {type(e).__name__}: {e}"
     text = k.serialize()
     back = K.deserialize(text)
     if back != k:
@@ -318,6 +348,31 @@ def header_contract(fields):
                     return f"{how} ({version}): header field {k}: read {getattr(g2.header, k)!r}, wrote {v!r}"
             if len(f2.lines) != len(g2.lines):
                 return f"{how} ({version}): {len(f2.lines)} lines in the file object, {len(g2.lines)} after re-reading"
+    # ... and in a multi-record SD file with metadata, whatever the free-text lines look like
+    sdf = mol.SDFile()
+    for nm in ("r1", "r2"):
+        rr = mol.SDRecord(header=mol.Header(**dict(fields, mol_name=fields.get("mol_name", nm) if nm == "r1" else nm)), metadata=mol.Metadata({"Key": "value of " + nm}))
+        rr.set_structure(a2)
+        sdf[rr.header.mol_name] = rr
+    s3 = io.StringIO()
+    sdf.write(s3)
+    try:
+        back = mol.SDFile.read(io.StringIO(s3.getvalue()))
+        names = list(back.keys())
+        if len(names) != 2:
+            return f"SD file with this header: records {names}"
+        for nm in names:
+            d = same(a2, back[nm].get_structure())
+            if d:
+                return f"SD file with this header, record {nm!r}: {d}"
+            md = {k.name: v for k, v in back[nm].metadata.items()}
+            if list(md) != ["Key"] or not md["Key"].startswith("value of "):
+                return f"SD file with this header, record {nm!r}: metadata {md}"
+        for k, v in fields.items():
+            if k != "mol_name" and getattr(back[names[0]].header, k) != v:
+                return f"SD file: header field {k}: read {getattr(back[names[0]].header, k)!r}, wrote {v!r}"
+    except Exception as e:
+        return f"SD file with this header cannot be read back: {type(e).__name__}: {e}"
     rec = mol.SDRecord(header=h)
     rec.set_structure(a)
     r2 = mol.SDRecord.deserialize(rec.serialize())
@@ -334,6 +389,10 @@ HEADERS = [
     {"registry_number": "1"}, {"registry_number": "123"}, {"registry_number": "654321"}, {"comments": "c" * 80}, {"comments": "with spaces  inside"},
     {"time": datetime.datetime(2024, 2, 29, 23, 59)},
     {"mol_name": "M", "initials": "QQ", "program": "ABCDEFGH", "dimensions": "3D", "registry_number": "999999", "comments": "all fields"},
+    # free-text header lines that look like other parts of the file
+    # (a header line starting with the record delimiter '$$$$', or a name starting with blanks, cannot be expressed by the format: not included)
+    {"comments": "M  END terminates the connection table below"}, {"mol_name": "M  END"}, {"comments": "the delimiter is $$$$"},
+    {"comments": "> <Name> looks like a metadata key"}, {"mol_name": "0  0  0     0  0            999 V2000"}, {"comments": "M  V30 BEGIN CTAB"},
 ]
 for fields in HEADERS:
     R.check("MOL/SDF header fields survive unchanged (incl. values filling their columns)", "header", {k: str(v) for k, v in fields.items()},
